@@ -57,9 +57,10 @@ def parse(text):
     k = i0 + 5
     while k < len(lines) and lines[k].strip() != "":
         l = lines[k]
-        row = {"line_number": int(l[:4]), "cells": [], "raw": l}
+        row = {"line_number": int(l[:4]), "cells": [], "raw": l, "raw_cells": []}
         for a, b in zip(port_b, port_b[1:]):
             row["cells"].append(_cell(l[a + 1:b]))
+            row["raw_cells"].append(l[a + 1:b].strip())
         row["cp"] = _cell(l[cp_b[0] + 1:cp_b[1]])
         row["lcd"] = _cell(l[cp_b[1] + 1:cp_b[2]])
         rest = l[cp_b[2] + 1:]
@@ -81,11 +82,13 @@ def parse(text):
     k += 1
     if k < len(lines) and r.missing is None and lines[k].strip() != "":
         l = lines[k]
-        cells = []
+        cells, raw = [], []
         for a, b in zip(port_b, port_b[1:]):
             cells.append(_cell(l[a + 1:b]))
+            raw.append(l[a + 1:b].strip())
         tail = l[port_b[-1] + 1:].split()
-        r.summary = {"cells": cells, "cp": float(tail[0]), "lcd": float(tail[1])}
+        r.summary = {"cells": cells, "raw_cells": raw, "cp": float(tail[0]),
+                     "lcd": float(tail[1])}
     # --- LCD list
     r.lcd_list = []
     try:
